@@ -112,14 +112,20 @@ inductive Action
   /-- PURGE / invalidation -/
   | purge (key : Key)
 
+/-- `StoreEntry::setPublicKey` / `StoreMap::openForWriting`: an older public entry under the key is taken out of the index -/
+def replaceOld (s : State) (k : Key) : State :=
+  match s.pub k with
+  | some old => unpublish s old
+  | none => s
+
+/-- the new entry: public at once, its writer attached, no slots yet -/
+def addEntry (s : State) (k : Key) (v : Ver) : State :=
+  let ent : Entry := { key := k, ver := v, chain := [], complete := false, aborted := false, isPublic := true, writing := true, readers := [] }
+  { s with entries := fun x => if x = s.nextE then some ent else s.entries x,
+           pub := fun x => if x = k then some s.nextE else s.pub x, nextE := s.nextE + 1 }
+
 def step (g : Geometry) (s : State) : Action → State
-  | .beginWrite k v =>
-    let s := match s.pub k with
-      | some old => unpublish s old
-      | none => s
-    let ent : Entry := { key := k, ver := v, chain := [], complete := false, aborted := false, isPublic := true, writing := true, readers := [] }
-    { s with entries := fun x => if x = s.nextE then some ent else s.entries x,
-             pub := fun x => if x = k then some s.nextE else s.pub x, nextE := s.nextE + 1 }
+  | .beginWrite k v => addEntry (replaceOld s k) k v
   | .append e slot =>
     match s.entries e with
     | none => s
